@@ -18,6 +18,7 @@ pub mod deadline;
 pub mod discovery;
 pub mod worker;
 pub mod rxo;
+pub mod matched;
 
 #[derive(Clone, Debug, Serialize, Deserialize, PartialEq)]
 pub struct Violation {
@@ -71,6 +72,7 @@ pub fn all() -> Vec<ScenarioDef> {
     v.extend(discovery::defs());
     v.extend(worker::defs());
     v.extend(rxo::defs());
+    v.extend(matched::defs());
     v
 }
 
